@@ -608,6 +608,7 @@ impl<'a> Lexer<'a> {
             'ł' => 'ɬ',
             'ñ' => 'ɲ',
             'φ' => 'ɸ',
+            'ǝ' => 'ə',
             // 'S' => 'ʃ', Can't have any of these in rules as they will be parsed as groups
             // 'Z' => 'ʒ',
             // 'C' => 'ɕ',
